@@ -30,7 +30,7 @@ SLOTS = ["aE", "aL", "aM", "w7", "w8", "i1", "i2"]
 DUE = {"aE": 1.0, "aL": 3.0, "aM": 2.0, "end": 10.0}
 BODIES = ["rm_aE", "rm_aM", "rm_aL", "rm_w7", "rm_w8", "rm_i1", "rm_i2", "add_a0", "add_a0_rm", "add_idle", "add_w9", "exit", "boom"]
 SLACK = 0.012
-TOL = {"tornado": 2e-3, "trio": 1e-3}
+TOL = {"trio": 1e-3}
 
 
 class Boom(Exception):
@@ -47,7 +47,7 @@ def run_program(loopname, prog, choices, second_run=False):
     variant, bodies = prog
     bodies = dict(bodies)
 
-    nd = 3 if loopname in ("tornado", "trio") else 6  # tornado derives timer delays from the real clock
+    nd = 3 if loopname == "trio" else 6
     state = {"armed": True}
 
     def make(name):
@@ -362,11 +362,110 @@ def loop_task(task, ctx: Ctx):
     # replay determinism of the harness itself: the default schedule twice
     a = run_program(loopname, progs[0], [], False)
     b = run_program(loopname, progs[0], [], False)
-    strip = lambda evs: [e for e in evs if e[0] != "wait"]  # noqa: E731  (tornado's time-outs come from the real clock)
+    strip = lambda evs: [e for e in evs if e[0] != "wait"]  # noqa: E731
     if (strip(a[1]), a[2]) != (strip(b[1]), b[2]):
         ctx.violation("replay-divergence", f"C13/replay-divergence/{loopname}", {"loop": loopname, "prog": progs[0], "choices": []}, "two runs of the default schedule differ")
     for prog in progs:
         explore(ctx, loopname, prog, bound, second_run)
+
+
+# ---------------------------------------------------------------------- part 2: many alarms, every registration order
+def run_alarms(loopname, order, remove, where):
+    """register len(order) alarms with delays order[i]*0.5 in that order; remove alarm number `remove` (a delay rank) either before run()
+    ('pre') or from the callback of the earliest other alarm ('cb'); -> (fired [(rank, time)], removal results, result)"""
+    logging.disable(logging.CRITICAL)
+    w = World(())
+    evl, _mkfd, closer = MAKERS[loopname](w)
+    fired, rm = [], []
+    H = {}
+
+    def do_rm():
+        for _ in range(2):
+            try:
+                rm.append(evl.remove_alarm(H[remove]))
+            except Exception as e:  # noqa: BLE001
+                rm.append(f"EXC:{exc_site(e)}")
+
+    first_other = min((r for r in order if r != remove), default=None)
+
+    def make(rank):
+        def f(*_a):
+            fired.append((rank, round(w.now(), 3)))
+            if where == "cb" and rank == first_other and remove is not None:
+                do_rm()
+
+        return f
+
+    def end(*_a):
+        raise ExitMainLoop
+
+    for rank in order:
+        H[rank] = evl.alarm(rank * 0.5, make(rank))
+    evl.alarm(len(order) * 0.5 + 2.0, end)
+    if where == "pre" and remove is not None:
+        do_rm()
+    res = "ok"
+    try:
+        with contextlib.redirect_stdout(io.StringIO()), contextlib.redirect_stderr(io.StringIO()):
+            try:
+                evl.run()
+            except Horizon as e:
+                res = f"HORIZON:{e}"
+            except BaseException as e:  # noqa: BLE001
+                res = f"EXC:{type(e).__name__}@{exc_site(e)}"
+            if w.horizon and not res.startswith("HORIZON"):
+                res = f"HORIZON:{w.horizon}"
+    finally:
+        if closer:
+            with contextlib.suppress(Exception):
+                closer()
+        logging.disable(logging.NOTSET)
+    return fired, rm, res
+
+
+def judge_alarms(loopname, order, remove, where, fired, rm, res):
+    out = []
+    tol = max(TOL.get(loopname, 1e-6), 2e-3)
+    first_other = min((r for r in order if r != remove), default=None)
+    expect = sorted(r for r in order if r != remove or (where == "cb" and remove < (first_other or 0)))
+    if res != "ok":
+        out.append(("run-returns", "many-alarms", f"run() ended with {res}"))
+        return out
+    if [r for r, _t in fired] != expect:
+        out.append(("alarm-order", "many-alarms/" + ("removed" if remove is not None else "plain"),
+                    f"alarms with due ranks {list(order)} registered in that order, rank {remove} removed ({where}): fired {[r for r, _ in fired]}, expected {expect}"))
+    else:
+        late = [(r, t) for r, t in fired if abs(t - r * 0.5) > tol + (SLACK if loopname == "twisted" else 0)]
+        if late:
+            out.append(("alarm-time", "many-alarms", f"order {list(order)} remove {remove} ({where}): fired at {late}, due at rank*0.5"))
+    already = where == "cb" and first_other is not None and remove is not None and remove < first_other
+    if remove is not None and (where == "pre" or first_other is not None) and not already:
+        # (what removing an alarm that has already fired reports is not specified)
+        want = [True, False]
+        if rm != want:
+            out.append(("remove-result", "many-alarms", f"order {list(order)}: remove_alarm twice on rank {remove} ({where}) returned {rm}, expected {want}"))
+    return out
+
+
+def alarm_task(task, ctx: Ctx):
+    loopname, orders = task
+    env.reset("utf-8")
+    for order in orders:
+        cases = [(None, "pre")] + [(r, "pre") for r in order] + [(r, "cb") for r in order if len(order) > 1]
+        for remove, where in cases:
+            ctx.count("evaluations")
+            fired, rm, res = run_alarms(loopname, order, remove, where)
+            ctx.distinct("nontrivial", (loopname, "alarms", order, remove, where))
+            for clause, feat, detail in judge_alarms(loopname, order, remove, where, fired, rm, res):
+                ctx.violation(clause, f"C13/{clause}/{loopname}/{feat}", {"part": "alarms", "loop": loopname, "order": list(order), "remove": remove, "where": where}, detail)
+
+
+def alarm_orders(nmax):
+    return [p for n in range(1, nmax + 1) for p in itertools.permutations(range(1, n + 1))]
+
+
+ALARM_NMAX = {"quick": {"select": 7, "zmq": 7, "asyncio": 5, "tornado": 4, "twisted": 5, "trio": 3},
+              "thorough": {"select": 8, "zmq": 8, "asyncio": 7, "tornado": 6, "twisted": 7, "trio": 5}}
 
 
 SECOND_RUN = {"select": True, "asyncio": True, "zmq": True, "tornado": False, "twisted": False, "trio": False}
@@ -387,6 +486,12 @@ def run(tier, R):
         for i in range(0, len(sel), n):
             tasks.append((loopname, sel[i : i + n], bound, SECOND_RUN[loopname]))
     R.run_tasks(loop_task, tasks, recheck=0.02, task_timeout=1800)
+    atasks = []
+    for loopname in LOOPS:
+        orders = alarm_orders(ALARM_NMAX[tier][loopname])
+        for i in range(0, len(orders), 400):
+            atasks.append((loopname, orders[i : i + 400]))
+    R.run_tasks(alarm_task, atasks, recheck=0.02, task_timeout=1800)
     ev = int(R.ctx.counts["evaluations"])
     nt = len(R.ctx.sets.get("nontrivial", ()))
     cov = {
@@ -398,7 +503,9 @@ def run(tier, R):
         "rule": f"{len(progs)} programs (3 alarms registered out of due order, 2 watches, 0 or 2 idle callbacks, a sentinel alarm; every single callback body of "
         f"{BODIES} in every slot, and {'every third' if tier == 'quick' else 'every'} pair of bodies in two slots" + (", a 6^3 lattice of three bodies in every slot triple" if tier != "quick" else "") + f") x 6 loops (select, asyncio, tornado, twisted, zmq, trio) x every "
         f"schedule with at most {2 if tier == 'quick' else 3} deviations (trio: {1 if tier == 'quick' else 2}) from the default environment answer (which readable descriptors a wait "
-        "reports, in which order; trio: batch reversal per scheduler tick); each execution judged by the contract acceptor. non-trivial = distinct (loop, program, callback trace, result)",
+        "reports, in which order; trio: batch reversal per scheduler tick); each execution judged by the contract acceptor. Part 2: every registration order of n alarms with distinct due "
+        f"times (n up to {ALARM_NMAX[tier]}), with no removal, each alarm removed before run(), and each alarm removed from the callback of the earliest other alarm: firing order, firing "
+        "times and remove_alarm results. non-trivial = distinct (loop, program, callback trace, result)",
         "exhaustive": True,
         "bound": {"deviations": 2 if tier == "quick" else 3, "trio_deviations": 1 if tier == "quick" else 2},
         "distinct_outcome_sets": len(R.ctx.sets.get("outcomes", ())),
@@ -407,7 +514,7 @@ def run(tier, R):
         "coverage": cov,
         "assumptions": [
             "the environment is a legal OS: a wait with a readable registered descriptor returns at once with a non-empty subset; otherwise time advances by exactly the time-out",
-            "idle slack 12 ms of virtual time (covers twisted's 1/256 s idle emulation); tornado / trio time tolerance 1-2 ms",
+            "idle slack 12 ms of virtual time (covers twisted's 1/256 s idle emulation); trio time tolerance 1 ms (its mock clock autojumps); every other loop, tornado included, runs on the exact virtual clock",
             "after a callback raised, only the way run() ends is judged; liveness clauses are judged on executions that reach the sentinel alarm; when several callbacks "
             "raised before the loop stopped, the outcome of any of them is accepted",
             "raise-once is also checked with a second run() on select, asyncio and zmq (the other reactors cannot be restarted by this harness)",
@@ -420,6 +527,13 @@ def replay(case, ctx):
         return tuple(tup(x) if isinstance(x, (list, tuple)) else x for x in p)
 
     loopname = case["loop"]
+    if case.get("part") == "alarms":
+        order, remove, where = tuple(case["order"]), case["remove"], case["where"]
+        fired, rm, res = run_alarms(loopname, order, remove, where)
+        print("  fired:", fired, "remove results:", rm, "result:", res)
+        for clause, feat, detail in judge_alarms(loopname, order, remove, where, fired, rm, res):
+            ctx.violation(clause, f"C13/{clause}/{loopname}/{feat}", case, detail)
+        return
     prog = tup(case["prog"])
     choices = list(case["choices"])
     pts, events, res, res2 = run_program(loopname, prog, choices, SECOND_RUN[loopname])
